@@ -28,13 +28,16 @@ claim("C05", "proof",
 claim("C04", "proof",
       "Lean 4 theorems (Props/C04.lean) prove for all inputs that the stripped text is byte-aligned with the source (same length, "
       "every character copied or replaced by as many blanks as it has bytes, prefix offsets equal), so positions computed by the "
-      "parser on the stripped text are valid byte positions and character boundaries of the original file. The remaining clauses "
+      "parser on the stripped text are valid byte positions and character boundaries of the original file; and that desugaring only copies "
+      "locations (C04_desugar_locations: every source range on a node of a desugared template is the range of a node of the template as written, "
+      "for all templates and template tables — 1 000 lines of structural induction over the desugaring model of C18, which is compared with the real "
+      "desugarer node by node, locations included), so findings about synthesised statements sit at constructs of the source. The remaining clauses "
       "(labels of later stages are in range, on boundaries and cover the construct named in the message) are checked by a label audit "
       "of every report on generated multi-byte/CRLF/commented files, and the line:column printed by the real binary and every SARIF region "
       "(primary and related locations) are compared with positions recomputed from the original bytes: that part is exploration, stated "
       "as partial in the evidence. The label audit also requires that an end-of-file error is labelled at the end of the file and that a LessThan finding is labelled at the LessThan input (fixes 96668b8, 2e3b320, found by an audit).",
-      "Lean kernel + standard axioms for the stripper part; LALRPOP @L/@R, lifting/desugaring metadata flow and codespan rendering are exercised, not proved.",
-      "Lean 4 proof (offset preservation) + label audit on the real pipeline", "5 (C04)")
+      "Lean kernel + standard axioms for the stripper and the desugaring part; LALRPOP @L/@R, the metadata flow of IR lifting and codespan rendering are exercised, not proved.",
+      "Lean 4 proof (offset preservation; desugaring copies locations) + label audit on the real pipeline", "5 (C04)")
 
 claim("C11", "proof",
       "The two BN254-specific template tables, the documented table, the three prime literals, the accepted curve names and the defaults "
